@@ -40,6 +40,41 @@ def mk(extra):
     return ob
 
 
+def mk_server(extra, via_file):
+    """the pattern the SERVER uses (built in LangServer.__init__ from the command line, rebuilt by
+    _load_config_file_dirs from the configuration file) - not just the library function"""
+    def ob():
+        from fortls.interface import cli
+        from fortls.langserver import LangServer
+
+        class _C:
+            def send_notification(self, *a):
+                pass
+        if via_file:
+            srv = LangServer(_C(), vars(cli("fortls").parse_args([])))
+            srv._load_config_file_dirs({"incl_suffixes": list(extra)})
+        else:
+            srv = LangServer(_C(), vars(cli("fortls").parse_args(["--incl_suffixes"] + list(extra) if extra else [])))
+        p = srv.FORTRAN_SRC_EXT_REGEX
+        L = rx.z3.Intersect(rx.lang(p, "search"), NAMES)
+        R = ref_lang(extra)
+        ok1, w1, _ = rx.subset(L, R)
+        ok2, w2, _ = rx.subset(R, L)
+        if ok1 is None or ok2 is None:
+            return None, "solver unknown", None, None
+        if ok1 and ok2:
+            return True, f"server pattern for incl_suffixes={extra} ({'file' if via_file else 'CLI'}): accepted names == documented set", None, None
+        w = w1 if not ok1 else w2
+        kind = "accepted although it has no source suffix" if not ok1 else "rejected although it ends in a source suffix"
+        code = (smt.REPLAY_HEAD + "from fortls.interface import cli\nfrom fortls.langserver import LangServer\n"
+                "class C:\n    def send_notification(self, *a): pass\n"
+                f"srv = LangServer(C(), vars(cli('fortls').parse_args([])))\nsrv._load_config_file_dirs({{'incl_suffixes': {list(extra)!r}}})\n"
+                f"name = {w!r}\nexp = name.lower().endswith(tuple('.'+s for s in {DEFAULT_SUFFIXES!r})) or any(name.endswith(e) for e in {list(extra)!r})\n"
+                "got = srv.FORTRAN_SRC_EXT_REGEX.search(name) is not None\nprint(name, 'search ->', got, 'expected', exp)\nsys.exit(1 if got != exp else 0)\n")
+        return False, f"server pattern, incl_suffixes={extra}: file name {w!r} {kind}", w, code
+    return ob
+
+
 def ob_lookalikes():
     p = create_src_file_exts_str([])
     L = rx.lang(p, "search")
@@ -63,3 +98,6 @@ if __name__ == "__main__":
     for cfg in CONFIGS:
         smt.run_ob("rx.suffix_language" + str(cfg), mk(cfg))
     smt.run_ob("rx.lookalikes", ob_lookalikes)
+    for cfg in CONFIGS[1:]:
+        smt.run_ob("rx.server_pattern.cli" + str(cfg), mk_server(cfg, False))
+        smt.run_ob("rx.server_pattern.file" + str(cfg), mk_server(cfg, True))
